@@ -478,3 +478,8 @@ Proof.
   intros c [<- | [<- | []]]; unfold cell_nondeg; rewrite ?V0, ?V1, ?V2, ?V3, ?V4;
     cbv [det3 vsub osub omul oadd Rops]; lra.
 Qed.
+
+Example ex_manifold : surface_manifold_ok exF exE = true.
+Proof. reflexivity. Qed.
+Example ex_conforming : cells_conforming exC = true.
+Proof. reflexivity. Qed.
